@@ -17,6 +17,7 @@ import (
 //verif:harness VerifC01_Mustache quick.maxpaths=30000 thorough.maxpaths=200000 timeout=1500
 //verif:harness VerifC01_Neighbourhood quick.maxpaths=30000 thorough.maxpaths=200000 timeout=1500
 //verif:harness VerifC01_AttrKernel quick.maxpaths=30000 thorough.maxpaths=200000 timeout=1500
+//verif:harness VerifC01_Pairs quick.maxpaths=60000 thorough.maxpaths=300000 timeout=2400
 //verif:harness VerifC01_RawTextParents quick.maxpaths=30000 thorough.maxpaths=200000 timeout=1500
 
 const zzC01Hostile = "<>&\"';#{}/ a"
@@ -177,4 +178,85 @@ func VerifC01_RawTextParents() {
 	zzNote("out", out)
 	end := "</" + tag
 	zzAssert(strings.Count(out, end) == strings.Count(base, end), "C01.rawtext.value-ends-the-element")
+}
+
+// ---- directive pairs -----------------------------------------------------------------
+
+// ways in which one element can use the value, and directives that may sit next to them
+var zzC01Uses = []string{
+	`v-text="val"`,
+	`:title="val"`,
+	`title="x {{ val }} y"`,
+	`:class="val"`,
+	`class="c {{ val }}"`,
+	`:data-v="val"`,
+}
+
+var zzC01Companions = []string{
+	``,
+	`v-show="no"`,
+	`v-show="ok"`,
+	`v-if="ok"`,
+	`v-for="it in one"`,
+	`style="color:red" v-show="no"`,
+	`:id="w"`,
+	`id="i-{{ w }}"`,
+	`v-once`,
+	`:style="{color: w}"`,
+}
+
+// VerifC01_Pairs: every use of the value on an element combined with every
+// companion directive on the same element, in both attribute orders: the
+// value stays inert (structure as with a harmless word, mustaches in it never
+// evaluated).
+func VerifC01_Pairs() {
+	u1 := zzChoice("use", len(zzC01Uses))
+	u2 := zzChoice("use2", len(zzC01Uses)+1) // optionally a second use
+	c := zzChoice("companion", len(zzC01Companions))
+	attrs := []string{zzC01Uses[u1]}
+	if u2 < len(zzC01Uses) {
+		n1 := zzC01Uses[u1][:strings.IndexByte(zzC01Uses[u1], '=')]
+		n2 := zzC01Uses[u2][:strings.IndexByte(zzC01Uses[u2], '=')]
+		if strings.TrimPrefix(n1, ":") == strings.TrimPrefix(n2, ":") {
+			return // the same attribute twice
+		}
+		attrs = append(attrs, zzC01Uses[u2])
+	}
+	if zzC01Companions[c] != "" {
+		if zzBool("companionFirst") {
+			attrs = append([]string{zzC01Companions[c]}, attrs...)
+		} else {
+			attrs = append(attrs, zzC01Companions[c])
+		}
+	}
+	inner := "t"
+	if u1 != 0 && u2 != 0 && zzBool("textToo") {
+		inner = "a {{ val }} b"
+	}
+	tpl := `<div><p ` + strings.Join(attrs, " ") + `>` + inner + `</p><i>after</i></div>`
+	entry := zzEntry()
+	render := func(v string) (string, error) {
+		data := map[string]any{"val": v, "ok": true, "no": false, "one": []string{"x"}, "k": "QQQ", "w": "word"}
+		return zzRenderVia(entry, nil, nil, tpl, data)
+	}
+	base, err0 := render("word")
+	zzAssert(err0 == nil, "C01.pairs.baseline-renders")
+	mode := zzChoice("mode", 2)
+	zzNote("template", tpl)
+	if mode == 0 {
+		val := zzStringIn("val", zzBound("NP", 3, 4), zzC01Hostile)
+		out, err := render(val)
+		zzNote("out", out)
+		zzAssert(err == nil, "C01.pairs.render-error")
+		if val == "" {
+			return
+		}
+		zzAssert(zzTagOpens(out) == zzTagOpens(base), "C01.pairs.tagopens")
+		zzAssert(zzTagQuotes(out) == zzTagQuotes(base), "C01.pairs.quotes")
+		return
+	}
+	out, err := render("a {{ k }} b")
+	zzNote("out", out)
+	zzAssert(err == nil, "C01.pairs.render-error")
+	zzAssert(!zzContains(out, "QQQ"), "C01.pairs.mustache-evaluated")
 }
